@@ -69,6 +69,10 @@ add("C19", "exploration",
     "The harness defines blocks with #[derive(rustradio_macros::Block)] (compiled with the working tree's macro crate): sync mode with 1..3 inputs x 1..3 outputs (default and into fields, a distinct output function and element type per output) and sync_tag mode (1x1 and 2x2 adding tags), and a non-sync derived block with packet and sample streams. Under drip-feed schedules with deliberately uneven inputs and output space every work() call is checked through the stream hooks: every input consumed and every output produced exactly min(shortest input, smallest output space); a wait verdict names an empty input / a full output; outputs arrive in declaration order with the right function; the first input's tags (plus added ones) reach every output once. The generated eof() is evaluated over all subsets of ended/drained inputs (3 copy inputs; copy + packet input), and new() must return packet and sample read ends in declaration order.",
     "Only arities up to 3x3 and the attribute combinations listed. A macro defect that breaks compilation for some arity makes the whole harness build fail (reported as inconclusive, as happened for 3 inputs before the fix).",
     "runtime monitoring: per-call conservation oracle over hook events for harness-defined derived blocks", "3/C19", "drip-feed")
+add("C17", "fault_enumeration",
+    "Open modes: all 30 combinations of {Create, Overwrite, Append} x {absent, empty, non-empty, directory, unwritable} x {FileSink, NoCopyFileSink}, each executed in a child process running as uid 65534 (root ignores mode bits), compared with the documented table (open succeeds/fails; resulting content new / old+new / unchanged). Crash points: a re-executed child streams unique samples (FileSink<u32>) or records (NoCopyFileSink<String>) through a one-page stream from a feeder thread while its main thread loops work() and, after every return, reports the cumulative count consumed by returned calls (from hook events) with one write(2) to a pipe; the parent sends SIGKILL after a seeded number of reports plus a seeded delay (96 kills quick, 3200 thorough), then reads the last complete report and the file: the file must be a prefix of the serialised stream and hold at least the acknowledged count.",
+    "Acknowledgement is taken when work() returns, which is the statement's reading; the stricter 'at the instant of consume()' is not demanded. Page-cache durability only.",
+    "runtime monitoring with fault injection: SIGKILL at seeded points of a child process, prefix/acknowledgement oracle on the file", "3/C17", "filesink")
 add("C18", "fault_enumeration",
     "Random create/drop histories of up to 200 live streams (u8, u32, [u8;16] buffers and stream pairs of 1,2,3,8 pages) over 1-8 threads; at every quiescent point the number of deleted-tmpfile mappings in /proc/self/maps and of entries in /proc/self/fd must equal the baseline. Aliasing through the hook accessor verif_raw(): for every page the first byte, the last byte and 62 random offsets are written at base+i and read at base+size+i and vice versa. Refused creations (sizes that are not page multiples; element sizes 3, 12 and 0) must return Err without panic and leave no mapping or descriptor, and a stream created afterwards passes a C01 history. Mapping failures are injected in a re-executed child: RLIMIT_AS (first mmap fails) and an LD_PRELOAD shim (first mmap ENOMEM, second mmap ENOMEM, second mmap placed at a different address): Buffer::new must return Err, nothing left behind, later streams healthy.",
     "Mapping failures are the four enumerated kinds; leak detection is process-wide, so histories run one at a time per worker. munmap failure (which the code turns into a panic) is not injected.",
@@ -91,6 +95,8 @@ ENGINES = [
          kind_free_text="finite sources under drain schedules; Repeat API model"),
     dict(name="mappings", path="harness/src/maps.rs, fault/mmapshim.c", serves_properties=["C18"],
          kind_free_text="create/drop histories with /proc accounting, aliasing probes, injected mmap failures in child processes"),
+    dict(name="filesink", path="harness/src/filesink.rs", serves_properties=["C17"],
+         kind_free_text="mode table in unprivileged children; SIGKILL crash points with acknowledgement pipe"),
     dict(name="hdlc", path="harness/src/hdlc.rs, hdlcprop.rs", serves_properties=["C13"],
          kind_free_text="HDLC transmitter model, reference deframer, clean and corrupted stream oracles"),
     dict(name="kernels", path="harness/src/kernels.rs", serves_properties=["C11"],
